@@ -70,6 +70,11 @@ def readAt (mem : List Nat) (pos size : Nat) : List Nat := (mem.drop pos).take s
 /-- the relative index of the typed-array methods: a negative argument counts from the end; the result is clamped to [0, len] -/
 def relIndex (x : Int) (len : Nat) : Nat := if x < 0 then ((len : Int) + x).toNat else min x.toNat len
 
+/-- store the same element bytes `bs` at elements k, k+1, …, k+n-1 of a view that starts at byte `off` -/
+def fillBytes (mem : List Nat) (off sz k : Nat) (bs : List Nat) : Nat → List Nat
+  | 0 => mem
+  | n + 1 => writeAt (fillBytes mem off sz k bs n) (off + (k + n) * sz) bs
+
 /-- `memmove(buf, from, to, count)` (array_buffer/utils.rs): the source range is read as a whole, then written -/
 def copyWithinImpl (mem : List Nat) (fromB toB count : Nat) : List Nat := writeAt mem toB (readAt mem fromB count)
 
@@ -124,6 +129,7 @@ inductive Op
   | dvSet (k : Kind) (off : Nat) (le : Bool) (x : Val)
   | detach
   | copy (dst src off : Nat)      -- `views[dst].set(views[src], off)`
+  | fill (v : Nat) (x : Val) (start : Int) (fin : Option Int)      -- `views[v].fill(x, start, fin)`
   | copyWithin (v : Nat) (target start : Int) (fin : Option Int)   -- `views[v].copyWithin(target, start, fin)`, any integers
   deriving Repr
 
@@ -240,6 +246,19 @@ def step (s : St) : Op → St × String
             | none => (acc.1, acc.2 + 1)) (s.buf.bytes, 0)
           ({ s with buf := { s.buf with bytes := mem } }, "ok")
     | _, _ => (s, "bad-op")
+  | .fill vi x start fin =>
+    match s.views[vi]? with
+    | none => (s, "bad-op")
+    | some v =>
+      -- %TypedArray%.prototype.fill: validate, convert the value once, relative indices, store it in [k, final)
+      if viewOOB s.buf v then (s, "TypeError")
+      else match toRaw v.kind x with
+        | none => (s, "TypeError")
+        | some raw =>
+          let len := viewLength s.buf v
+          let k := relIndex start len
+          let final := match fin with | some e => relIndex e len | none => len
+          ({ s with buf := { s.buf with bytes := fillBytes s.buf.bytes v.byteOffset v.kind.size k (encodeLE v.kind.size raw) (final - k) } }, "ok")
   | .copyWithin vi target start fin =>
     match s.views[vi]? with
     | none => (s, "bad-op")
